@@ -103,7 +103,7 @@ def build_driver(c):
     return out
 
 
-def run_driver(c, binp, progs, nproc):
+def run_driver(c, binp, progs, nproc, budget):
     shards = [progs[i::nproc] for i in range(nproc)]
     procs = []
     for i, sh in enumerate(shards):
@@ -111,7 +111,7 @@ def run_driver(c, binp, progs, nproc):
             continue
         d = os.path.join(c.scratch, "drv%d" % i)
         os.makedirs(os.path.join(d, "tmp"), exist_ok=True)
-        json.dump(dict(ttl_ms=2500, refresh_ttl_ms=4500, programs=sh), open(os.path.join(d, "programs.json"), "w"))
+        json.dump(dict(ttl_ms=2500, refresh_ttl_ms=4500, budget_s=budget, programs=sh), open(os.path.join(d, "programs.json"), "w"))
         env = dict(os.environ)
         env.update(TMPDIR=os.path.join(d, "tmp"), VERIF_SEED=str(c.seed + i),
                    VERIF_SESSION_PROGRAMS=os.path.join(d, "programs.json"),
@@ -143,54 +143,52 @@ def run_driver(c, binp, progs, nproc):
     return traces, summ
 
 
-ST_RE = re.compile(r'<<"ST", (\d+), "(\w+)", \{([^}]*)\}, (TRUE|FALSE), (TRUE|FALSE), (TRUE|FALSE)>>')
 
 
-def validate(c, cfg, traces, chunk=400):
-    """Like vlib.validate_traces, but also returns the <<"ST", ...>> notes of TLC keyed by (trace, event index)."""
+def validate(c, cfg, traces, chunk=1500):
+    """One TLC run judges all traces of a chunk: SessionTrace can abandon a trace at any line and keeps a
+    high-water mark per trace.  Returns (rejections, notes); notes = the <<"ST", ...>> labels TLC computed
+    for the Validate/Refresh/Forge lines it tried, keyed by (trace name, event index)."""
     rej, notes = [], {}
     for off in range(0, len(traces), chunk):
-        pending = traces[off:off + chunk]
-        while pending:
-            lines, index = [], []
-            for ti, (name, evs) in enumerate(pending):
-                lines.append(json.dumps({"ev": "Reset", "trace": name, **FIELDS}))
-                index.append((ti, -1))
-                for ei, ev in enumerate(evs):
-                    lines.append(json.dumps(ev, sort_keys=True))
-                    index.append((ti, ei))
-            r = c.tlc("SessionTrace", cfg, workers=1, timeout=900, files={"trace.ndjson": "\n".join(lines) + "\n"},
-                      tag="trace")
-            if r.timed_out:
-                raise vlib.InfraError("trace validation timed out")
-            hwm = None
-            for pr in r.prints:
-                m = re.search(r'"HWM",\s*(\d+)', pr)
-                if m:
-                    hwm = int(m.group(1))
-                m = ST_RE.match(pr)
-                if m:
-                    ti, ei = index[int(m.group(1)) - 1]
-                    labels = sorted(x.strip().strip('"') for x in m.group(3).split(",") if x.strip())
-                    notes[(pending[ti][0], ei)] = (m.group(2), tuple(labels), m.group(4) == "TRUE",
-                                                   m.group(5) == "TRUE", m.group(6) == "TRUE")
-            if hwm is None:
-                raise vlib.InfraError("trace validation produced no HWM (%s):\n%s" % (cfg, r.out[-5000:]))
-            c.cov["states"] += r.distinct
-            c.cov["transitions"] += r.generated
-            if hwm >= len(lines):
-                if r.violated and r.violated != "postcondition":
-                    raise vlib.InfraError("trace spec error: %s\n%s" % (r.violated, r.out[-4000:]))
-                c.cov["traces_validated_against_impl"] += len(pending)
-                pending = []
-            else:
-                ti, ei = index[hwm]
-                name, evs = pending[ti]
-                rej.append(dict(trace=name, index=ei, event=evs[ei] if ei >= 0 else None, events=evs,
-                                note=notes.get((name, ei)),
-                                tlc_tail=r.out[-1500:] if r.violated not in (None, "postcondition") else ""))
-                c.cov["traces_validated_against_impl"] += ti
-                pending = pending[ti + 1:]
+        part = traces[off:off + chunk]
+        lines, index, resets = [], [], []
+        for ti, (name, evs) in enumerate(part):
+            resets.append(len(lines) + 1)
+            lines.append(None)
+            index.append((ti, -1))
+            for ei, ev in enumerate(evs):
+                lines.append(json.dumps(ev, sort_keys=True))
+                index.append((ti, ei))
+        for n, r in enumerate(resets):
+            nxt = resets[n + 1] if n + 1 < len(resets) else len(lines) + 1
+            lines[r - 1] = json.dumps({"ev": "Reset", "trace": part[n][0], "next": nxt})
+        r = c.tlc("SessionTrace", cfg, workers=1, timeout=900, files={"trace.ndjson": "\n".join(lines) + "\n"},
+                  tag="trace")
+        if r.timed_out:
+            raise vlib.InfraError("trace validation timed out")
+        hwm = {}
+        for pr in r.prints:
+            m = re.match(r'<<"HWM", (\d+), (\d+)>>', pr)
+            if m:
+                hwm[int(m.group(1))] = int(m.group(2))
+            if pr.startswith('"{') and '\\"st\\":' in pr:
+                n = json.loads(vlib.tla_unquote(pr))
+                ti, ei = index[n["st"] - 1]
+                notes[(part[ti][0], ei)] = (n["ev"], tuple(sorted(n["labels"])), n["mut"], n["ok"], n["fresh"])
+        if len(hwm) != len(resets) or not r.ok:
+            raise vlib.InfraError("trace validation failed (%s, violated=%s):\n%s" % (cfg, r.violated, r.out[-5000:]))
+        c.cov["states"] += r.distinct
+        c.cov["transitions"] += r.generated
+        for n, rl in enumerate(resets):
+            nxt = resets[n + 1] if n + 1 < len(resets) else len(lines) + 1
+            name, evs = part[n]
+            if hwm[rl] >= nxt:
+                c.cov["traces_validated_against_impl"] += 1
+                continue
+            ti, ei = index[hwm[rl] - 1]        # first line of the trace that no step of the model matches
+            rej.append(dict(trace=name, index=ei, event=evs[ei] if ei >= 0 else None, events=evs,
+                            note=notes.get((name, ei)), tlc_tail=""))
     return rej, notes
 
 
@@ -231,11 +229,11 @@ def run(c):
                                  for s in h[1:]]))
     # 3. the real code
     binp = build_driver(c)
-    raw, summ = run_driver(c, binp, progs, nproc=c.pick(4, 6))
+    raw, summ = run_driver(c, binp, progs, nproc=c.pick(4, 6), budget=c.pick(55, 600))
     traces = [(n, norm(e)) for n, e in raw]
     raw_by = dict(raw)
-    if len(traces) < len(progs) * 0.9:
-        raise vlib.InfraError("only %d of %d programs completed inside their time windows" % (len(traces), len(progs)))
+    if len(traces) < 40:
+        raise vlib.InfraError("only %d of %d programs completed inside the time budget (machine too loaded)" % (len(traces), len(progs)))
     # 4. strict validation = the property
     rej, notes = validate(c, "SessionTrace.cfg", traces)
     again = []
